@@ -71,6 +71,8 @@ impl BlockchainParser {
                     process::exit(1);
                 }
             };
+            #[cfg(rbp_verif)]
+            crate::verif::stall(height);
             self.on_block(&block, height)?;
             #[cfg(rbp_verif)]
             crate::verif::ev("deliver", &format!("\"h\":{},\"hash\":\"{}\",\"ntx\":{}", height, block.header.hash, block.txs.len()));
